@@ -127,6 +127,8 @@ class P:
             return "Self"
         if v == "Ordering":
             return "ordering"
+        if v == "Matrix":
+            return "matrix"
         if v == "Option":
             self.eat("<")
             t = self.ty()
@@ -237,13 +239,13 @@ class P:
                 stmts.append(("expr", e))
                 continue
             if self.at("}"):
-                if e[0] in ("for", "foreach", "fordownrange", "while") or \
+                if e[0] in ("for", "foreach", "fordownrange", "while", "loop") or \
                         (e[0] == "if" and (e[3] is None or (e[2][2] is None and e[3][2] is None))):
                     stmts.append(("expr", e))      # a value-less `if` / loop in tail position is a statement
                 else:
                     tail = e
                 break
-            if e[0] in ("if", "while", "match", "for", "foreach", "fordownrange"):   # block-like statement without trailing semicolon
+            if e[0] in ("if", "while", "loop", "match", "for", "foreach", "fordownrange"):   # block-like statement without trailing semicolon
                 stmts.append(("expr", e))
                 continue
             raise Unsupported("statement near %r" % (self.peek()[1],))
@@ -449,6 +451,9 @@ class P:
             self.next()
             e = None if (self.at(";") or self.at(",") or self.at("}")) else self.expr()
             return ("return", e)
+        if v == "loop" and self.peek(1)[1] == "{":
+            self.next()
+            return ("loop", self.block())
         if v == "while":
             self.next()
             c = self.expr()
@@ -539,6 +544,7 @@ class Tr:
         self.uconsts = {}   # associated consts of Uint: name -> (type, initialiser AST), inlined at use
         self.sigs = {}      # rust name -> (gname, [param tys], ret ty, pure, mutref_idx)
         self.alias = {}
+        self.mconsts = {}   # associated consts of Matrix: name -> initialiser AST
         self.ngen = {}      # rust name -> number of const generic parameters (leading usize parameters)
         self.out = []
 
@@ -594,6 +600,12 @@ class Tr:
                 if c in self.uconsts:
                     cty, cast = self.uconsts[c]
                     return self.ex(f, cast, env, cty)
+            if len(e[1]) == 2 and e[1][1] in self.mconsts and (e[1][0] == "Matrix" or (e[1][0] == "Self" and f.selfty == "matrix")):
+                saved, f.selfty = f.selfty, "matrix"
+                try:
+                    return self.ex(f, self.mconsts[e[1][1]], env, "matrix")
+                finally:
+                    f.selfty = saved
             raise Unsupported("path " + p)
         if k == "tuple":
             bs, atoms, ts = [], [], []
@@ -639,6 +651,8 @@ class Tr:
             b, a, t = self.ex(f, e[1], env)
             if e[2] == "0" and t == "W64":
                 return b, a, "u64"
+            if t == "matrix" and e[2] in ("0", "1", "2", "3", "4"):
+                return b, "(mat_%s %s)" % (e[2], paren(a)), "bool" if e[2] == "4" else "u64"
             if e[2] == "limbs" and t == "uint":
                 return b, a, ("slice", "u64")
             if e[2] in ("0", "1") and isinstance(t, tuple) and t[0] == "tuple" and len(t[1]) == 2:
@@ -923,6 +937,16 @@ class Tr:
         if name == "Wrapping":
             b, a, t = self.ex(f, args[0], env, "u64")
             return b, a, "W64"
+        if (name == "Matrix" or (name == "Self" and f.selfty == "matrix")) and len(args) == 5:
+            # the tuple struct Matrix(u64, u64, u64, u64, bool)
+            bs, atoms = [], []
+            for a_, w_ in zip(args, ["u64"] * 4 + ["bool"]):
+                b, a, t = self.ex(f, a_, env, w_)
+                if t not in (w_, "lit"):
+                    raise Unsupported("Matrix field of type %s" % (t,))
+                bs += b
+                atoms.append(a)
+            return bs, "(" + ", ".join(atoms) + ")", "matrix"
         if name in ("core::cmp::min", "cmp::min") and len(args) == 2:
             b1, a1, t1 = self.ex(f, args[0], env, "usize")
             b2, a2, t2 = self.ex(f, args[1], env, t1)
@@ -1569,6 +1593,37 @@ class Tr:
                 loop = ("fordown", iv, ("var", "__cnt_" + iv), None, inner)
                 envafter_fix = ("assign", ("var", iv), None, ("num", 0, None))
                 return self.stmts(f, [("expr", loop), envafter_fix] + ss[i + 1:], 0, env1, fin, retty)
+            if e[0] == "loop" and f.gname in WHILE_FUEL:
+                # `loop { body }` left only by `return`: runs on the tuple of the variables the body assigns,
+                # with the round bound of WHILE_FUEL; nothing after it is reachable
+                body = e[1]
+                if body[2] is not None or not self.has_return(body) or getattr(f, "retloops", 0):
+                    raise Unsupported("loop with a value, without return, or nested in a returning loop")
+                vs = self.assigned(body)
+                for v in vs:
+                    if v not in env:
+                        raise Unsupported("assignment to undeclared " + v)
+                if not vs:
+                    raise Unsupported("loop without effect")
+                tup = lambda en: ("(" + ", ".join(en[v][0] for v in vs) + ")") if len(vs) != 1 else en[vs[0]][0]
+                pat = ("(" + ", ".join(vs) + ")") if len(vs) != 1 else vs[0]
+                env2 = dict(env)
+                for v in vs:
+                    env2[v] = (v, env[v][1])
+                if not hasattr(f, "loopfins"):
+                    f.loopfins = []
+                cont = lambda en: "Val (Cont " + tup(en) + ")"
+                f.loopfins.append(cont)
+                f.retloops = getattr(f, "retloops", 0) + 1
+                try:
+                    bcode = self.stmts(f, body[1], 0, env2, cont, retty)
+                finally:
+                    f.loopfins.pop()
+                    f.retloops -= 1
+                f.impure = True
+                st = f.fresh()
+                return "loop_fuel_ret (%s) %s (fun %s => let '%s := %s in %s)" % (
+                    WHILE_FUEL[f.gname], tup(env), st, pat, st, bcode)
             if e[0] == "while" and f.gname in WHILE_FUEL:
                 # a `while c { body }` with no syntactic trip count: the loop runs on the tuple of the
                 # variables the body assigns with the round bound named in WHILE_FUEL (an expression of
@@ -1782,7 +1837,7 @@ class Tr:
             else:
                 env[pn] = (pn, pt)
                 ptys.append(pt)
-            binders.append("(%s : %s)" % (pn, "bool" if pt == "bool" else
+            binders.append("(%s : %s)" % (pn, "bool" if pt == "bool" else "(Z * Z * Z * Z * bool)" if pt == "matrix" else
                                           "list Z" if (pt == "uint" or (isinstance(pt, tuple) and pt[0] in ("slice", "arr"))) else "Z"))
 
         f.mutouts = mutouts
@@ -1845,6 +1900,7 @@ UINT_IMPL = "impl<const BITS: usize, const LIMBS: usize> Uint<BITS, LIMBS>"
 WHILE_FUEL = {
     "g_overflowing_pow": "Datatypes.S (Z.to_nat BITS)",     # exp < 2^BITS is halved every round
     "g_wrapping_pow": "Datatypes.S (Z.to_nat BITS)",
+    "g_mat_from_u64": "70%nat",                   # r0 at least halves every round
 }
 
 TARGETS = [
@@ -1965,6 +2021,9 @@ TARGETS = [
     ("src/add.rs", UINT_IMPL, "wrapping_sub", "U.wrapping_sub", "g_wrapping_sub", "uint"),
     ("src/add.rs", UINT_IMPL, "wrapping_neg", "U.wrapping_neg", "g_wrapping_neg", "uint"),
     ("src/add.rs", UINT_IMPL, "abs_diff", "U.abs_diff", "g_abs_diff", "uint"),
+    ("src/algorithms/gcd/matrix.rs", "impl Matrix", "compose", "M.compose", "g_mat_compose", "matrix"),
+    ("src/algorithms/gcd/matrix.rs", "impl Matrix", "from_u64", "M.from_u64", "g_mat_from_u64", "matrix"),
+    ("src/algorithms/gcd/matrix.rs", "impl Matrix", "apply_u128", "M.apply_u128", "g_mat_apply_u128", "matrix"),
     ("src/modular.rs", UINT_IMPL, "reduce_mod", "U.reduce_mod", "g_reduce_mod", "uint"),
     ("src/modular.rs", UINT_IMPL, "add_mod", "U.add_mod", "g_add_mod", "uint"),
     ("src/modular.rs", UINT_IMPL, "mul_redc", "U.mul_redc", "g_u_mul_redc", "uint"),
@@ -1995,6 +2054,12 @@ def translate(repo):
             m = re.search(r"\bconst\s+%s\s*:\s*(\w+)\s*=\s*([^;]+);" % cn, lib)
             if m:
                 tr.uconsts[cn] = (m.group(1), P(tokenize(m.group(2))).expr())
+    except (OSError, Unsupported):
+        pass
+    try:
+        mt = open(os.path.join(repo, "src/algorithms/gcd/matrix.rs")).read()
+        for m in re.finditer(r"\bconst\s+(\w+)\s*:\s*Self\s*=\s*(Self\([^;]*\));", mt):
+            tr.mconsts[m.group(1)] = P(tokenize(m.group(2))).expr()
     except (OSError, Unsupported):
         pass
     SYM = {"Add": "+", "Sub": "-", "Mul": "*", "Div": "/", "Rem": "%"}
